@@ -1,7 +1,17 @@
 (* drv_C19.ml — driver: runs the extracted C19 model (directional statistics)
-   on the case file given on stdin.  Same operands as cpp/h_C19.cpp. *)
+   on the case file given on stdin.  Same operands as cpp/h_C19.cpp.
+   Result matrices are printed with the model's OWN shape (rows = number of
+   result rows, columns = width of the first row; a matrix without rows has no
+   width in the list-of-rows representation and is printed as 0 x 0). *)
+let out_model_mat name (l : Obj.t list list) =
+  let rows = List.length l in
+  let cols = match l with [] -> 0 | r :: _ -> List.length r in
+  Caseio.out_mat_shape name rows cols (mat_of_lmx l)
+let out_model_col name (l : Obj.t list) =
+  Caseio.out_mat_shape name (List.length l) (if l = [] then 0 else 1) (col_of_lvec l)
+
 let mean_of (a : float array array) (w : float array array) =
-  col_of_lvec (c19_mean fops (nat_of_int (mat_cols a)) (lmx_of_mat a) (lvec_of_col w))
+  c19_mean fops (nat_of_int (mat_cols a)) (lmx_of_mat a) (lvec_of_col w)
 
 let () =
   let cases = Caseio.read_records "case" stdin in
@@ -12,17 +22,16 @@ let () =
        | "add" | "sub" ->
            let f = if c.kind = "add" then c19_add fops else c19_sub fops in
            let a = Caseio.get_mat c "a" and b = Caseio.get_mat c "b" in
-           let rows = Array.length a and cols = mat_cols a in
-           Caseio.out_mat_shape "res" rows cols (mat_of_lmx (f (lmx_of_mat a) (lvec_of_col b)));
+           out_model_mat "res" (f (lmx_of_mat a) (lvec_of_col b));
            if Caseio.has c "a2" then begin
              let a2 = Caseio.get_mat c "a2" and b2 = Caseio.get_mat c "b2" in
-             Caseio.out_mat_shape "res2" rows cols (mat_of_lmx (f (lmx_of_mat a2) (lvec_of_col b2)))
+             out_model_mat "res2" (f (lmx_of_mat a2) (lvec_of_col b2))
            end
        | "mean" ->
            let a = Caseio.get_mat c "a" and w = Caseio.get_mat c "w" in
-           Caseio.out_mat_shape "res" (Array.length a) 1 (mean_of a w);
+           out_model_col "res" (mean_of a w);
            List.iter
-             (fun (nm, out) -> if Caseio.has c nm then Caseio.out_mat_shape out (Array.length a) 1 (mean_of (Caseio.get_mat c nm) w))
+             (fun (nm, out) -> if Caseio.has c nm then out_model_col out (mean_of (Caseio.get_mat c nm) w))
              [ ("a2", "res2"); ("a3", "res3") ];
            (* spec-level value: weighted resultant of each row (real, imaginary) *)
            let rs = Array.map (fun row ->
